@@ -54,11 +54,12 @@ CLAIMED["C17"] = dict(
               "against kana_alpha::convert and chokan.el",
     text="C17_total, C17_ascii (full client class), C17_output_chars, C17_keeps_ascii (ASCII letters/digits stay in place and "
          "order), C17_units (result = spelling of the first unit ++ conversion of the rest), C17_client_inverse (all rows but the "
-         "recorded findings), C17_katakana_rows are kernel-checked; the models are tied to conversion.rs/lib.rs (shape-checked by the translator, "
+         "recorded findings), C17_katakana_rows, C17_katakana (string level: the katakana image of any in-class input converts "
+         "identically) and C17_nfd (the NFD decomposition of an in-class input or of its katakana image converts identically) are kernel-checked; the models are tied to conversion.rs/lib.rs (shape-checked by the translator, "
          "run differentially on ~7000 inputs) and to chokan.el (evaluator).",
     note="NFC is modelled on kana + combining (han)dakuten only; arbitrary Unicode is run on the implementation for totality but "
-         "not compared with the model. Katakana/NFD equivalence at string level is checked by the executable oracle on the "
-         "implementation, proved at row level only; the real server's GetAlphabeticCandidate is compared with the library. "
+         "not compared with the model. The model's decomposition decompKana is compared with Unicode NFD on the whole kana block; the "
+         "real server's GetAlphabeticCandidate is compared with the library. "
          "16 client-inverse witnesses are known findings (known_findings.json). "
          "Axioms: propext, Classical.choice, Quot.sound.",
     design="5/C17")
